@@ -4,7 +4,7 @@
 use crate::case::{self, Case};
 use crate::driver::{self, Spec, REL_TOL_F32};
 use crate::forms::any_layout;
-use crate::util::{abs_dot, all_finite, dot, fit_or_skip, usable};
+use crate::util::{abs_dot, all_finite, dot, fit_or_skip, fit_with_deadline, usable};
 use linfa::dataset::Pr;
 use linfa::prelude::*;
 use linfa_bayes::{GaussianNb, MultinomialNb};
@@ -39,7 +39,7 @@ pub fn check_logistic(c: &Case, obs: &mut Obs) {
     let threshold = [0.5, 0.3, 0.7][c.opt(2, 3) as usize];
     obs.class(if threshold == 0.5 { "logistic_threshold_default" } else { "logistic_threshold_custom" });
     let ds = Dataset::new(case::train_x(c), y);
-    let Some(model) = fit_or_skip(obs, || {
+    let Some(model) = fit_with_deadline(obs, move || {
         LogisticRegression::default().alpha(alpha).with_intercept(intercept).max_iterations(60).fit(&ds)
     }) else {
         return;
@@ -78,7 +78,7 @@ pub fn check_multilogistic(c: &Case, obs: &mut Obs) {
     let y = Array1::from(case::rank_labels(c, k).into_iter().map(|l| 10 * (l + 1)).collect::<Vec<_>>());
     let alpha = [1.0, 0.1][c.opt(1, 2) as usize];
     let ds = Dataset::new(case::train_x(c), y);
-    let Some(model) = fit_or_skip(obs, || MultiLogisticRegression::default().alpha(alpha).max_iterations(60).fit(&ds)) else {
+    let Some(model) = fit_with_deadline(obs, move || MultiLogisticRegression::default().alpha(alpha).max_iterations(60).fit(&ds)) else {
         return;
     };
     let w = model.params().clone(); // p x k
